@@ -1,16 +1,25 @@
 package main
 
-import "fmt"
+import (
+	"encoding/json"
+	"fmt"
 
-// runReplay re-executes a replay file on the implementation built from the current tree.
+	clover "github.com/ostafen/clover/v2"
+	d "github.com/ostafen/clover/v2/document"
+)
+
+// runReplay re-executes a replay file on the implementation built from the current tree and
+// re-evaluates the oracle; exit code 1 (with a VIOLATION line) when the case still fails.
 func runReplay(path, driver, scratch string) int {
 	r := readReplay(path)
 	fn, ok := replayers[r.Stream]
 	if !ok {
-		fmt.Printf("replay: stream %q has no direct replayer; re-run the check for %s with VERIF_SEED=%d\n", r.Stream, r.Property, r.Seed)
+		fmt.Printf("replay: stream %q has no direct replayer; re-run `./check %s` with VERIF_SEED=%d VERIF_TIER=%s\n", r.Stream, r.Property, r.Seed, r.Tier)
 		return 2
 	}
-	if fn(r, driver, scratch) {
+	still, detail := fn(r, driver, scratch)
+	if still {
+		fmt.Println("replay: still fails: " + detail)
 		fmt.Printf("VIOLATION property=%s replay=%s\n", r.Property, path)
 		return 1
 	}
@@ -18,4 +27,122 @@ func runReplay(path, driver, scratch string) int {
 	return 0
 }
 
-var replayers = map[string]func(r *Replay, driver, scratch string) bool{}
+func caseLines(r *Replay) []J {
+	out := []J{}
+	for _, c := range r.Case {
+		b, _ := json.Marshal(c)
+		var j J
+		json.Unmarshal(b, &j)
+		out = append(out, j)
+	}
+	return out
+}
+
+var replayers = map[string]func(r *Replay, driver, scratch string) (bool, string){
+	"history": func(r *Replay, driver, scratch string) (bool, string) {
+		dr := StartDriver(driver)
+		defer dr.Close()
+		be := r.Backend
+		if be == "" {
+			be = "bbolt"
+		}
+		im := NewImpl(be, scratch)
+		defer im.Destroy()
+		lines := caseLines(r)
+		if len(lines) > 0 && lines[len(lines)-1]["k"] != "dump" {
+			lines = append(lines, J{"k": "dump"})
+		}
+		o := runHistory(dr, im, lines, HistOpts{})
+		for _, res := range o.Results {
+			if len(res.Impl) > 5 && res.Impl[:5] == "panic" {
+				return true, res.Impl
+			}
+		}
+		if o.Index >= 0 {
+			return true, o.Kind + ": " + o.Detail
+		}
+		return false, ""
+	},
+	"cmp": func(r *Replay, driver, scratch string) (bool, string) {
+		for _, ln := range caseLines(r) {
+			a, b := decValue(ln["a"]), decValue(ln["b"])
+			if sign(clover.VerifCompare(a, b)) != -sign(clover.VerifCompare(b, a)) {
+				return true, "Compare is not sign-antisymmetric on the pair"
+			}
+			dr := StartDriver(driver)
+			m := dr.Ask(ln)
+			dr.Close()
+			if m != fmt.Sprint(sign(clover.VerifCompare(a, b))) {
+				return true, "Compare differs from the Lean model: " + m
+			}
+		}
+		return false, ""
+	},
+	"trans": func(r *Replay, driver, scratch string) (bool, string) {
+		for _, ln := range caseLines(r) {
+			a, b, c := decValue(ln["a"]), decValue(ln["b"]), decValue(ln["c"])
+			if clover.VerifCompare(a, b) <= 0 && clover.VerifCompare(b, c) <= 0 && clover.VerifCompare(a, c) > 0 {
+				return true, "Compare is not transitive on the triple"
+			}
+		}
+		return false, ""
+	},
+	"keyorder": func(r *Replay, driver, scratch string) (bool, string) {
+		for _, ln := range caseLines(r) {
+			a, b := decValue(ln["a"]), decValue(ln["b"])
+			ka, _ := implKey(a)
+			kb, _ := implKey(b)
+			ca := sign(clover.VerifCompare(a, b))
+			for _, ids := range [][2]string{{fixedId(1), fixedId(2)}, {fixedId(2), fixedId(1)}} {
+				kc := 0
+				if ka+ids[0] < kb+ids[1] {
+					kc = -1
+				} else if ka+ids[0] > kb+ids[1] {
+					kc = 1
+				}
+				want := ca
+				if ca == 0 {
+					if ka != kb {
+						return true, "equal values have different keys"
+					}
+					continue
+				}
+				if kc != want {
+					return true, "index keys do not sort like the values"
+				}
+			}
+		}
+		return false, ""
+	},
+	"key": func(r *Replay, driver, scratch string) (bool, string) {
+		dr := StartDriver(driver)
+		defer dr.Close()
+		for _, ln := range caseLines(r) {
+			k, err := implKey(decValue(ln["v"]))
+			if err != nil {
+				return true, err.Error()
+			}
+			if m := dr.Ask(ln); m != hx(k) {
+				return true, "index key bytes differ from the Lean model"
+			}
+		}
+		return false, ""
+	},
+	"sat": func(r *Replay, driver, scratch string) (bool, string) {
+		dr := StartDriver(driver)
+		defer dr.Close()
+		for _, ln := range caseLines(r) {
+			if ln["k"] != "sat" {
+				continue
+			}
+			res, pan := safeSatisfy(decCrit(ln["crit"]), d.NewDocumentOf(decDoc(ln["doc"])))
+			if pan != "" {
+				return true, "Satisfy panics: " + pan
+			}
+			if m := dr.Ask(ln); m != b01(res) {
+				return true, "Satisfy differs from the Lean model"
+			}
+		}
+		return false, ""
+	},
+}
